@@ -82,3 +82,9 @@ Example C12_nonvacuous :
 Proof. repeat split; [ destruct pauliref_do1 as [|[g f] l] eqn:E | destruct pauliref_do2 as [|[[g f] r] l] eqn:E
                      | destruct pauliref_undo1 as [|[g f] l] eqn:E | destruct pauliref_undo2 as [|[[g f] r] l] eqn:E ];
   try (vm_compute in E; discriminate); repeat eexists; left; reflexivity. Qed.
+
+(* (7) Backward propagation through an instruction with several target pairs: every routine that the backward dispatch runs
+       in FORWARD pair order commutes with itself on overlapping pairs (so the order is immaterial); all others are dispatched
+       with the reverse-order flag. *)
+Theorem C12_undo_pair_order_ok : names2 bad_undo_order = [].
+Proof. exact pauliref_undo_pair_order_ok. Qed.
